@@ -45,8 +45,9 @@ Inductive req :=
                                              when admitted the object stays in the set as TERMINATING
                                              (deletionTimestamp set) until the finalizer is removed.  No code
                                              under C10 reads the deletionTimestamp, so the flag is not modelled *)
-| EnvGone (n : positive)                  (* the finalizer is removed: the object disappears (modelled for a queue
-                                             that has no children and is neither root nor default) *)
+| EnvGone (n : positive)                  (* the finalizer is removed: the object disappears, whether it has
+                                             children or not (root and default can never be terminating: their
+                                             DELETE is always refused) *)
 | EnvStatus (n : positive) (a st : Z).     (* status update by the scheduler / queue controller, not an
                                               admission request: allocated pods := a, state := st,
                                               a negative value leaving the field as it is *)
@@ -355,9 +356,8 @@ Definition apply_req (Q : queues) (r : req) : queues :=
   | Update n s => match Q !! n with None => Q | Some o => <[n := with_status (qalloc o) (qstate o) s]> Q end
   | Delete n => delete n Q
   | DeleteFin n => Q
-  | EnvGone n =>
-    if bool_decide (children_of Q n = []) && negb (bool_decide (n = root)) && negb (bool_decide (n = default_q))
-    then delete n Q else Q
+  | EnvGone n =>   (* the API server drops the object unconditionally, children or not *)
+    if negb (bool_decide (n = root)) && negb (bool_decide (n = default_q)) then delete n Q else Q
   | EnvStatus n a st =>
     match Q !! n with
     | None => Q
@@ -368,8 +368,20 @@ Definition apply_req (Q : queues) (r : req) : queues :=
 Definition apply_if_admitted (c : cfg) (Q : queues) (r : req) : queues :=
   if allowed (verdict_of c Q r) then apply_req Q r else Q.
 
+(* a finalizer removal is SAFE when the queue has no children.  The webhook admits a CREATE / re-parenting
+   under a terminating queue, so an unsafe removal is reachable (known finding
+   C10-child-under-terminating-parent); the history theorems carry this as a hypothesis. *)
+Definition req_safe (Q : queues) (r : req) : Prop :=
+  match r with EnvGone n => children_of Q n = [] | _ => True end.
+
 Definition run_history (c : cfg) (Q0 : queues) (rs : list req) : queues :=
   fold_left (apply_if_admitted c) rs Q0.
+
+Fixpoint safe_history (c : cfg) (Q : queues) (rs : list req) : Prop :=
+  match rs with
+  | [] => True
+  | r :: rest => req_safe Q r /\ safe_history c (apply_if_admitted c Q r) rest
+  end.
 
 (* the verdicts along a history *)
 Fixpoint verdicts (c : cfg) (Q : queues) (rs : list req) : list verdict :=
